@@ -56,6 +56,9 @@ def stat_close(stat, toks, want, xs):
     if len(vals) != len(want):
         return False, 'shape'
     scale = sum(abs(float(x)) for x in xs) + 1.0 if stat != 'BernoulliSuffStat' else 1.0
+    if stat in ('InvGammaSuffStat', 'InvGaussianSuffStat'):
+        # sums of reciprocals: forgetting a tiny datum cancels a huge term, the rounding error scales with it
+        scale += sum(abs(1.0 / float(x)) for x in xs if float(x) != 0.0)
     sq = sum(float(x) ** 2 for x in xs) + 1.0 if stat == 'GaussianSuffStat' else scale
     for i, (t, w) in enumerate(zip(vals, want)):
         if isinstance(w, int):
@@ -75,7 +78,14 @@ def extra_run(man, tier, seed):
     failures, obligations, samples = [], [], []
     total = 0
     model_dis = 0
+    runs = []
     for stat, (kind, obs, suf) in STATS.items():
+        runs.append((stat, kind, obs, suf))
+        if kind == 'f64' and 'f32' in (man['defs'].get(f'{stat}.observe_{suf}', {}).get('kinds_all') or []):
+            # the same statistic fed with f32 observations: the closed form is taken at the exactly widened values, so
+            # arithmetic done in f32 before widening shows up as a deviation beyond binary64 rounding
+            runs.append((stat, 'f32', (lambda r, obs=obs: gen.f32r(obs(r) if r.random() < 0.8 else obs(r) * r.choice([1e-3, 1e-6, 1e-9]))), suf))
+    for stat, kind, obs, suf in runs:
         if f'{stat}.observe_{suf}' not in man['defs']:
             obligations.append({'name': f'translate:{stat}.observe_{suf}', 'kind': 'translate', 'ok': False, 'site': stat, 'detail': 'not generated'})
             continue
@@ -100,11 +110,15 @@ def extra_run(man, tier, seed):
             lines = [f'{stat}.{op} {kind} {s} {a}' for s, a in zip(states, args)]
             i, m = run_pair(lines)
             return lines, i, m
-        # 1. observe_many all
-        args = [enc(xs) for xs, _ in hs]
-        l1, i1, _ = step(f'observe_many_{suf}', state_i, args)
-        _, _, m1 = step(f'observe_many_{suf}', state_m, args)
-        total += 2 * nh
+        # 1. observe_many in two batches (the second one lands on a statistic that already holds data; either may be empty)
+        cut = [rng.choice([0, len(xs), rng.randint(0, len(xs)), rng.randint(0, len(xs))]) for xs, _ in hs]
+        args_a = [enc(xs[:c]) for (xs, _), c in zip(hs, cut)]
+        args_b = [enc(xs[c:]) for (xs, _), c in zip(hs, cut)]
+        _, i1a, _ = step(f'observe_many_{suf}', state_i, args_a)
+        _, _, m1a = step(f'observe_many_{suf}', state_m, args_a)
+        l1, i1, _ = step(f'observe_many_{suf}', i1a, args_b)
+        _, _, m1 = step(f'observe_many_{suf}', m1a, args_b)
+        total += 4 * nh
         # 2. forget_many the subset
         args2 = [enc([xs[j] for j in f]) for xs, f in hs]
         l2, i2, _ = step(f'forget_many_{suf}', i1, args2)
@@ -149,6 +163,7 @@ def extra_run(man, tier, seed):
             ok, detail = stat_close(stat, a_impl, want, xs) if a_impl not in ('PANIC', 'HANG') else (False, a_impl)
             if not ok:
                 failures.append({'site': site, 'case': l2[h], 'impl': a_impl, 'expected': ' '.join(map(str, want)),
+                                 'history': [f'{stat}.new', f'observe_many {kind} {args_a[h]}', f'observe_many {kind} {args_b[h]}', f'forget_many {kind} {args2[h]}'],
                                  'detail': detail, 'observed': 'value' if a_impl not in ('PANIC', 'HANG') else a_impl.lower(),
                                  'n_obs': len(xs), 'n_forget': len(f), 'all_forgotten': len(f) == len(xs), 'stat': stat})
             # (d) forgetting everything returns exactly the empty statistic
@@ -165,6 +180,43 @@ def extra_run(man, tier, seed):
                     failures.append({'site': site, 'case': f'{stat} observe one-at-a-time permuted {perm[h][:8]}…', 'impl': cur[h],
                                      'expected': ' '.join(map(str, want)), 'detail': detail, 'observed': 'value', 'stat': stat,
                                      'n_obs': len(xs), 'n_forget': len(f), 'all_forgotten': False})
+    # MvGaussianSuffStat (feature arraydist; hand model in Hand/Mvg.lean, theorems C15.stat_*): implementation-level relations
+    # through the harness op mvgstat.observe_forget <data> <indices> -> n, sum_x, sum_x_sq
+    ml, mm = [], []
+    for _ in range(nh):
+        d = rng.choice([1, 2, 3, 5])
+        n = rng.choice([1, 2, 3, 5, 8, 20])
+        rows = [[gen.real(rng) * rng.choice([1e-3, 1.0, 1.0, 7e5]) if rng.random() < 0.7 else rng.choice([0.1, 0.2, 0.3]) for _ in range(d)] for _ in range(n)]
+        k = n if rng.random() < 0.4 else rng.randint(0, n)
+        idx = rng.sample(range(n), k)
+        flat = [v for r_ in rows for v in r_]
+        ml.append(f'mvgstat.observe_forget - {n} {d} {enc(flat)} L{k}' + ''.join(f' {i}' for i in idx))
+        mm.append((rows, idx, d))
+    mi, _ = run_pair(ml, want_model=False)
+    total += len(ml)
+    for line, (rows, idx, d), a in zip(ml, mm, mi):
+        if a in ('NOOP',):
+            break
+        keep = [r_ for j, r_ in enumerate(rows) if j not in set(idx)]
+        toks = a.split()
+        bad = None
+        if a in ('PANIC', 'HANG', 'DIED'):
+            bad = a
+        else:
+            fl = [tok_to_float(t) for t in toks if t.startswith('x')]
+            if toks[0] != str(len(keep)):
+                bad = f'n = {toks[0]}, {len(keep)} data held'
+            elif not keep and any(v != 0.0 for v in fl):
+                bad = 'residue after forgetting everything: ' + ' '.join(repr(v) for v in fl if v != 0.0)[:120]
+            elif keep:
+                sx = [math.fsum(r_[i] for r_ in keep) for i in range(d)]
+                mag = sum(abs(v) for r_ in rows for v in r_) + 1.0
+                if any(abs(p - q) > 1e-9 * mag for p, q in zip(fl[:d], sx)):
+                    bad = f'sum_x {fl[:d]} vs {sx}'
+        if bad:
+            failures.append({'site': 'MvGaussianSuffStat', 'case': line, 'impl': a, 'expected': 'statistic of the remaining data (exactly empty when none)',
+                             'detail': bad, 'observed': 'residue' if not keep else 'value', 'stat': 'MvGaussianSuffStat',
+                             'n_obs': len(rows), 'n_forget': len(idx), 'all_forgotten': not keep})
     # one obligation per stat for the correspondence of histories (dedupe)
     seen = set()
     obs2 = []
